@@ -15,6 +15,7 @@ DataSeg:
 type DataSeg struct {
 	start int
 	data  []byte
+	lit   []bool // lit[i]: data[i] belongs to a literal placed by Append (never written again)
 }
 
 func NewDataSeg(start int) *DataSeg {
@@ -22,14 +23,30 @@ func NewDataSeg(start int) *DataSeg {
 }
 
 func (s *DataSeg) Append(data []byte, align int) (ptr int) {
-	ptr = bytes.Index(s.data, data)
-	if ptr != -1 {
-		ptr += s.start
-		return
+	// Share an equal literal that is already in the segment. Regions reserved
+	// by Alloc are filled in later by Set (and alignment padding belongs to
+	// nobody): a literal must never be placed on top of those.
+	for from := 0; len(data) > 0 && from+len(data) <= len(s.data); {
+		i := bytes.Index(s.data[from:], data)
+		if i < 0 {
+			break
+		}
+		i += from
+		ok := makeAlign(s.start+i, align) == s.start+i
+		for k := i; ok && k < i+len(data); k++ {
+			ok = s.lit[k]
+		}
+		if ok {
+			return s.start + i
+		}
+		from = i + 1
 	}
 
 	ptr = s.Alloc(len(data), align)
 	s.Set(data, ptr)
+	for k := ptr - s.start; k < ptr-s.start+len(data); k++ {
+		s.lit[k] = true
+	}
 	return
 }
 
@@ -38,6 +55,7 @@ func (s *DataSeg) Alloc(size, align int) (ptr int) {
 	ptr = makeAlign(p, align)
 	d := ptr + size - p
 	s.data = append(s.data, make([]byte, d)...)
+	s.lit = append(s.lit, make([]bool, d)...)
 	return
 }
 
